@@ -98,8 +98,15 @@ def try_invoke(spk, trains, fn, form, sel, kw):
 
 
 def snapshot(trains):
-    return [(t.spikes.tobytes(), str(t.spikes.dtype), t.spikes.shape, float(t.t_start), float(t.t_end))
-            for t in trains]
+    out = []
+    for t in trains:
+        a = t.spikes
+        try:
+            arr = np.asarray(a)
+            out.append((type(a).__name__, arr.tobytes(), str(arr.dtype), arr.shape, float(t.t_start), float(t.t_end)))
+        except Exception as e:      # whatever the library left there, it is not what the caller put in
+            out.append((type(a).__name__, repr(e)))
+    return out
 
 
 def shape_facts(specs, sel=None):
@@ -249,7 +256,7 @@ def _forms_for(fn, k):
     return forms
 
 
-def _gen_call(rng, wp, pool, fns=None, allow_auto=True, want_interval=True, normalize=True):
+def _gen_call(rng, wp, pool, fns=None, allow_auto=True, want_interval=True, normalize=True, no_reconcile=False):
     fn = rng.choice(fns or MEASURE_FUNCS)
     family, kind, forms, has_iv = FUNCS[fn]
     n = len(pool)
@@ -261,7 +268,7 @@ def _gen_call(rng, wp, pool, fns=None, allow_auto=True, want_interval=True, norm
         form = rng.choice(_forms_for(fn, len(sel)))
         if fn == 'filter_by_spike_sync':
             form = 'list'
-    kw = gen.gen_kw(rng, wp, family, allow_auto)
+    kw = gen.gen_kw(rng, wp, family, allow_auto, no_reconcile=no_reconcile)
     if has_iv and want_interval:
         iv = gen.gen_interval(rng, wp, [t for i in sel for t in pool[i]])
         if iv is not None or rng.random() < 0.3:
@@ -306,7 +313,7 @@ def generate(prop, rng, tier):
             fn = SCALAR[m]
             sel = gen.gen_sel(rng, len(pool), 2, len(pool))
             form = rng.choice(_forms_for(fn, len(sel)))
-            kw = gen.gen_kw(rng, wp, m)
+            kw = gen.gen_kw(rng, wp, m, no_reconcile=True)
             iv = None
             if m != 'order':
                 iv = gen.gen_interval(rng, wp, [t for i in sel for t in pool[i]])
@@ -321,7 +328,7 @@ def generate(prop, rng, tier):
             if r < 0.35:
                 fns = [f for f in MEASURE_FUNCS if FUNCS[f][1] in ('pwc', 'pwl', 'disc', 'scalar')
                        and 'pair' in FUNCS[f][2]]
-                c = _gen_call(rng, wp, pool, fns)
+                c = _gen_call(rng, wp, pool, fns, no_reconcile=True)
                 c['op'] = 'range'
                 c['form'] = 'pair'
                 c['sel'] = sel
@@ -329,7 +336,7 @@ def generate(prop, rng, tier):
             elif r < 0.7:
                 m = rng.choice(['isi', 'spike', 'sync'])
                 kind = rng.choice(['prof', 'scalar'])
-                kw = gen.gen_kw(rng, wp, m)
+                kw = gen.gen_kw(rng, wp, m, no_reconcile=True)
                 if kind == 'scalar':
                     iv = gen.gen_interval(rng, wp, [t for i in sel for t in pool[i]])
                     if iv is not None:
@@ -337,7 +344,7 @@ def generate(prop, rng, tier):
                 ops.append({'op': 'swap', 'm': m, 'kind': kind, 'sel': sel, 'kw': kw})
             else:
                 m = rng.choice(['isi', 'spike', 'sync', 'dir'])
-                kw = gen.gen_kw(rng, wp, m)
+                kw = gen.gen_kw(rng, wp, m, no_reconcile=True)
                 i = rng.randrange(len(pool))
                 if m != 'dir':
                     iv = gen.gen_interval(rng, wp, list(pool[i]))
@@ -350,7 +357,7 @@ def generate(prop, rng, tier):
             fn = rng.choice([f for f in MEASURE_FUNCS if len(FUNCS[f][2]) > 1])
             family, kind, forms, has_iv = FUNCS[fn]
             sel = gen.gen_sel(rng, len(pool), 2, len(pool))
-            kw = gen.gen_kw(rng, wp, family)
+            kw = gen.gen_kw(rng, wp, family, no_reconcile=True)
             if has_iv:
                 iv = gen.gen_interval(rng, wp, [t for i in sel for t in pool[i]])
                 if iv is not None:
@@ -360,7 +367,7 @@ def generate(prop, rng, tier):
             ops.append({'op': 'forms', 'fn': fn, 'sel': sel, 'kw': kw})
     elif prop == 'C18':
         for _ in range(nops):
-            ops.append(_gen_call(rng, wp, pool))
+            ops.append(_gen_call(rng, wp, pool, no_reconcile=True))
     elif prop == 'C13':
         # raw pool: disordered / repeated spike times, sometimes different edges and
         # out-of-range times (>= 0.5 outside, or exactly 5e-7 outside for the reconcile op only)
@@ -377,12 +384,17 @@ def generate(prop, rng, tier):
             if rng.random() < 0.5:
                 raw[k]['s'].append(max(sp['e'][1] for sp in raw) + rng.choice([0.5, 2.0]))
         specs = raw
+        pool = list(pool)      # grows: trains returned by reconcile are kept by the caller and reused
         for _ in range(nops):
             r = rng.random()
-            if r < 0.12:
-                sel = gen.gen_sel(rng, len(pool), 1, len(pool))
-                ops.append({'op': 'reconcile', 'sel': sel, 'near': rng.random() < 0.3,
-                            'scribble': rng.random() < 0.7})
+            if r < 0.14:
+                sel = gen.gen_sel(rng, len(pool), 1, min(len(pool), 4))
+                o = {'op': 'reconcile', 'sel': sel, 'near': rng.random() < 0.3,
+                     'scribble': rng.random() < 0.5}
+                ops.append(o)
+                if not o['scribble'] and len(pool) < 12:
+                    for i in sel:
+                        pool.append(sorted(set(pool[i])))
             elif r < 0.55:
                 c = _gen_call(rng, wp, pool, allow_auto=True, want_interval=False)
                 c['op'] = 'disorder'
@@ -450,7 +462,8 @@ def execute(world, run, prop=None):
                 if op['how'] == 'sort':
                     pool[i].sort()
                     specs[i]['s'] = sorted(specs[i]['s'])
-                elif op['how'] == 'inplace' and len(new) == len(pool[i].spikes):
+                elif op['how'] == 'inplace' and isinstance(pool[i].spikes, np.ndarray) and \
+                        len(new) == len(pool[i].spikes):
                     pool[i].spikes[...] = new
                     specs[i]['s'] = list(op['s'])
                 else:
@@ -459,10 +472,19 @@ def execute(world, run, prop=None):
                 snap = snapshot(pool)
                 rec.log(('mutate', i, op['how']))
                 continue
+            if any(i >= len(pool) for i in op.get('sel', [])) or op.get('i', 0) >= len(pool):
+                rec.log(('skip', op['op']))
+                continue
             try:
-                _exec_op(world, spk, rec, prop, op, pool, specs, config, t0, t1)
+                kept = _exec_op(world, spk, rec, prop, op, pool, specs, config, t0, t1)
             except _HarnessBug:
                 raise
+            if op['op'] == 'reconcile' and kept and len(pool) < 12:
+                # the caller keeps the returned trains and passes them to later calls
+                for o in kept:
+                    pool.append(o)
+                    specs.append({'s': [float(t) for t in o.spikes], 'e': [float(o.t_start), float(o.t_end)]})
+                snap = snapshot(pool)
             if prop == 'C13':
                 now = snapshot(pool)
                 if now != snap:
@@ -732,6 +754,9 @@ def _op_reconcile(spk, rec, op, pool, specs, config):
             if len(o.spikes):
                 o.spikes[...] = -12345.0
             o.t_start, o.t_end = -1.0, -2.0
+        return None
+    # the extra 'near' train (times 5e-7 outside, kept or dropped at the implementation's choice) is not reused
+    return list(out)[:len(sel)]
 
 
 def _op_disorder(spk, rec, op, pool, specs, config):
@@ -882,3 +907,35 @@ def simplify(run):
 def _copy(run):
     import json
     return json.loads(json.dumps(run))
+
+
+# ----------------------------------------------------------------------
+# repeat-with-variation: an earlier operation is issued again later in the run with one
+# argument changed (or none), so that memoised / cached / leftover state from the first
+# issue meets different inputs
+# ----------------------------------------------------------------------
+def vary(run, rng):
+    ops = run['ops']
+    wp = run['swarm']['wp']
+    T = wp['T']
+    cand = [k for k, o in enumerate(ops) if o['op'] not in ('mutate', 'reconcile')]
+    if not cand or rng.random() < 0.4:
+        return
+    for _ in range(rng.randint(1, 3)):
+        k = rng.choice(cand)
+        o = _copy(ops[k])
+        q = rng.random()
+        kw = o.get('kw')
+        if kw is not None and q < 0.35:
+            key = rng.choice(['MRTS', 'max_tau', 'interval'])
+            if key in kw:
+                if key == 'interval':
+                    del kw[key]
+                else:
+                    kw[key] = rng.choice([0.0, T / 32, T / 4, T])
+        elif q < 0.55 and len(o.get('sel', [])) >= 2 and o['op'] != 'self':
+            o['sel'] = list(reversed(o['sel']))
+        elif q < 0.7 and o['op'] in ('call', 'disorder', 'noreconcile', 'e2e') and o.get('form') in ('list', 'idx', 'star'):
+            forms = [f for f in _forms_for(o['fn'], len(o['sel'])) if f != 'pair']
+            o['form'] = rng.choice(forms) if forms else o['form']
+        ops.insert(rng.randint(k + 1, len(ops)), o)
